@@ -502,7 +502,7 @@ func runC09(e *Env) {
 		nonsense("zero-duration/text", "1"+v, convD, nil)
 		nonsense("zero-duration/text", "C[1] R"+v, convS, nil)
 	}
-	for _, v := range []string{"bpm=0", "bpm=abc", "bpm=-1", "vel=xx", "vel=F", "mtr=0/4", "mtr=4/0", "mtr=x", "mtr=/", "key=H", "key=c", "key=Cmaj", "key=xxG#yy", "key=Fb", "key=E#m", "key=Abm"} {
+	for _, v := range []string{"bpm=0", "bpm=abc", "bpm=-1", "vel=xx", "vel=F", "mtr=0/4", "mtr=4/0", "mtr=x", "mtr=/", "key=H", "key=c", "key=Cmaj", "key=xxG#yy", "key=Fb", "key=E#m", "key=Abm", "key=XAm", "key=xC", "key=Key of G", "key=in F", "key=E#Gb", "key=Amx", "key=G major", "key=Am7", "key=CC", "key=mC"} {
 		label := strings.SplitN(v, "=", 2)[0] + "/text-metadata"
 		if strings.HasPrefix(v, "key=") {
 			label = "key-without-scale/text-metadata"
@@ -542,13 +542,19 @@ func runC09(e *Env) {
 			nonsense("bad-durations/yaml", inst("", v), cmd, nil)
 			nonsense("bad-durations/yaml", "- values:\n    - \"1\"\n"+inst("", v), cmd, nil)
 		}
-		for _, v := range []string{"  bpm: 0\n", "  bpm: -1\n", "  bpm: x\n", "  velocity: xx\n", "  velocity: \"\"\n", "  meter: \"0/4\"\n", "  meter: \"4/0\"\n", "  meter: x\n", "  key: H\n", "  key: c\n", "  key: Cmaj\n", "  key: Fb\n", "  key: E#m\n", "  key: Abm\n", "  key: xxG#yy\n"} {
+		for _, v := range []string{"  bpm: 0\n", "  bpm: -1\n", "  bpm: x\n", "  velocity: xx\n", "  velocity: \"\"\n", "  meter: \"0/4\"\n", "  meter: \"4/0\"\n", "  meter: x\n", "  key: H\n", "  key: c\n", "  key: Cmaj\n", "  key: Fb\n", "  key: E#m\n", "  key: Abm\n", "  key: xxG#yy\n", "  key: XAm\n", "  key: xC\n", "  key: Key of G\n", "  key: in F\n", "  key: E#Gb\n", "  key: Amx\n", "  key: G major\n", "  key: Am7\n", "  key: \" C\"\n", "  key: \"C \"\n", "  key: CC\n", "  key: mC\n"} {
 			label := strings.TrimSpace(strings.SplitN(v, ":", 2)[0]) + "/yaml"
 			if strings.Contains(v, "key:") {
 				label = "key-without-scale/yaml"
 			}
 			nonsense(label, inst(v, okValues), cmd, nil)
 			nonsense(label, "- values:\n    - \"1\"\n- values:\n    - \"1\"\n"+strings.Replace(v, "  ", "  ", 1)+inst("", okValues), cmd, nil)
+		}
+		// an instance without durations that is a rest
+		for _, v := range []string{"- values: []\n", "- bpm: 90\n", "- value:\n    - \"1\"\n", "- values:\n", "- meta:\n    txt: a\n", "- key: C\n"} {
+			nonsense("bad-durations/yaml", inst("", okValues)+v+inst("", okValues), cmd, nil)
+			nonsense("bad-durations/yaml", inst("", okValues)+v, cmd, nil)
+			nonsense("bad-durations/yaml", v+inst("", okValues), cmd, nil)
 		}
 		nonsense("unknown-symbol/yaml", "- chord:\n    degree: \"1\"\n    name: \"xyz\"\n"+okValues, cmd, nil)
 		nonsense("bad-degree/yaml", "- chord:\n    degree: \"x\"\n    name: \"\"\n"+okValues, cmd, nil)
@@ -558,7 +564,7 @@ func runC09(e *Env) {
 			nonsense("empty-piece/yaml", v, cmd, nil)
 		}
 		// flag channel
-		for _, f := range [][]string{{"--velocity", "xx"}, {"--meter", "0/4"}, {"--meter", "4/0"}, {"--meter", "x"}, {"--key", "H"}, {"--key", "c"}, {"--key", "Cmaj"}, {"--key", "Fb"}, {"--key", "E#m"}, {"--key", "Abm"}, {"--track", "0"}, {"--track", "-1"}} {
+		for _, f := range [][]string{{"--velocity", "xx"}, {"--meter", "0/4"}, {"--meter", "4/0"}, {"--meter", "x"}, {"--key", "H"}, {"--key", "c"}, {"--key", "Cmaj"}, {"--key", "Fb"}, {"--key", "E#m"}, {"--key", "Abm"}, {"--key", "XAm"}, {"--key", "xC"}, {"--key", "Key of G"}, {"--key", "E#Gb"}, {"--key", "Amx"}, {"--key", "G major"}, {"--key", " C"}, {"--key", "C "}, {"--key", "CC"}, {"--track", "0"}, {"--track", "-1"}} {
 			label := strings.TrimLeft(f[0], "-") + "/flag"
 			if f[0] == "--key" {
 				label = "key-without-scale/flag"
@@ -566,7 +572,7 @@ func runC09(e *Env) {
 			nonsense(label, inst("", okValues), append(append([]string{}, cmd...), f...), nil)
 		}
 	}
-	for _, k := range []string{"H", "c", "Cmaj", "Fb", "E#m", "Abm", "xxG#yy"} {
+	for _, k := range []string{"H", "c", "Cmaj", "Fb", "E#m", "Abm", "xxG#yy", "XAm", "xC", "Key of G", "in F", "E#Gb", "Amx", "G major", "Am7", " C", "C ", "CC", "mC", "♭B"} {
 		nonsense("key-without-scale/flag", "C[1]", []string{"text", "conv", "syllable", "--key", k}, nil)
 		nonsense("key-without-scale/flag", "", []string{"info", "key", "describe", "--key", k}, nil)
 		nonsense("key-without-scale/flag", "", []string{"info", "key", "conv", "--key", k, "-c", "d"}, nil)
@@ -695,6 +701,22 @@ func runC09(e *Env) {
 	for _, t := range []string{"2", "33", "70000"} {
 		add("flag-value", "any", c09ValidDoc, "write", "--track", t)
 	}
+	// a flag given many times: more dictionary files than there are CPUs, buffers or workers
+	for _, n := range []int{2, 3, 17, 40, 130, 300} {
+		files := map[string]string{}
+		var ca, aa []string
+		for i := 0; i < n; i++ {
+			files[fmt.Sprintf("c%d.yml", i)] = fmt.Sprintf("- name: Many%d\n  meta:\n    display: my%d\n  extends: MajorTriad\n  attributes:\n    - MA%d\n", i, i, i)
+			files[fmt.Sprintf("a%d.yml", i)] = fmt.Sprintf("- name: MA%d\n  degree: \"%d\"\n", i, 9+i%7)
+			ca = append(ca, "--chord", fmt.Sprintf("{DIR}/c%d.yml", i))
+			aa = append(aa, "--attr", fmt.Sprintf("{DIR}/a%d.yml", i))
+		}
+		doc := fmt.Sprintf("- chord:\n    degree: \"1\"\n    name: \"my%d\"\n  values:\n    - \"1\"\n", n-1)
+		for _, cmd := range [][]string{{"write"}, {"write", "event"}, {"info", "chord", "list"}, {"info", "chord", "describe", "-t", fmt.Sprintf("C_my%d", n-1)}} {
+			cases = append(cases, c09Case{Label: "flag-value", Args: append(append(append([]string{}, cmd...), ca...), aa...), Stdin: doc, Files: files, Expect: "ok"})
+		}
+		cases = append(cases, c09Case{Label: "flag-value", Args: append([]string{"info", "attr", "list"}, aa...), Files: files, Expect: "ok"})
+	}
 	// --debug must not change the failure shape
 	for _, t := range []string{"C[1] ]", "C[", "C[1]{a", "1[1] 2", "]"} {
 		add("debug", "fail", t, "text", "parse", "--debug")
@@ -767,8 +789,8 @@ func runC09(e *Env) {
 	})
 	e.R.AddPart(ev.Part{Name: "short-inputs-cli", Enumerated: fmt.Sprintf("real binary: every chord text of length <= %d over 22 symbols (C04's alphabet + NUL, 0xFF, 0xC3, ♯, CR) on text parse / conv degree / conv syllable; every YAML string of length <= 2 over 15 symbols on write / write event / write parse / write conv; every string of length <= 2 over C04's alphabet (and 14 longer ones) as the -t target of info chord describe, 9 x 8 (target, root) pairs of info attr describe", tl), Executions: int64(nShort), Exhaustive: true})
 	e.R.AddPart(ev.Part{Name: "one-deviation-mutants-cli", Enumerated: fmt.Sprintf("real binary: every truncation, deletion, and replacement/insertion by each of 20 bytes at every position of %s", map[bool]string{true: "3 chord texts, 3 instance documents, a chord file and an attribute file", false: "1 chord text, 1 instance document and a chord file"}[e.Thorough]), Executions: int64(nMut), Exhaustive: true})
-	e.R.AddPart(ev.Part{Name: "nonsense-table-cli", Enumerated: "real binary: {zero / zero-denominator durations, no durations, bpm 0, unknown dynamic, bad meter, unknown symbol, unknown modifier / conversion / target, keys without scale (H, c, Cmaj, xxG#yy, Fb, E#m, Abm), mixed notation, empty piece, inconsistent dictionaries} x {text metadata, YAML field, flag} x every command that has to interpret it, each also with -o and with the input given as a FILE argument; nonsense that a stage may pass on is piped into `write`, which must refuse it; plus unusual dictionary files (deep extends chain, YAML anchors/alias cycle, empty/null entries) held to the failure-shape oracle", Executions: int64(nTable), Exhaustive: true})
-	e.R.AddPart(ev.Part{Name: "flag-values-cli", Enumerated: "real binary: every value flag of every command x {empty, 0, -1, abc, 1e3, 2^64-1, 2^64, 300 digits, invalid UTF-8, C, 1/2}; --track 2, 33, 70000; valid baselines", Executions: int64(nFlags), Exhaustive: true})
+	e.R.AddPart(ev.Part{Name: "nonsense-table-cli", Enumerated: "real binary: {zero / zero-denominator durations, no durations, bpm 0, unknown dynamic, bad meter, unknown symbol, unknown modifier / conversion / target, keys without scale (H, c, Cmaj, Fb, E#m, Abm, and a key name with anything before, after or around it: xxG#yy, XAm, Key of G, E#Gb, Amx, G major, CC, ...), mixed notation, empty piece, inconsistent dictionaries} x {text metadata, YAML field, flag} x every command that has to interpret it, each also with -o and with the input given as a FILE argument; nonsense that a stage may pass on is piped into `write`, which must refuse it; plus unusual dictionary files (deep extends chain, YAML anchors/alias cycle, empty/null entries) held to the failure-shape oracle", Executions: int64(nTable), Exhaustive: true})
+	e.R.AddPart(ev.Part{Name: "flag-values-cli", Enumerated: "real binary: every value flag of every command x {empty, 0, -1, abc, 1e3, 2^64-1, 2^64, 300 digits, invalid UTF-8, C, 1/2}; --track 2, 33, 70000; 2..300 dictionary files on one command line; valid baselines", Executions: int64(nFlags), Exhaustive: true})
 
 	// in-process short inputs (longer than through the binary)
 	var libTexts []string
